@@ -162,20 +162,20 @@ def tag? (s : String) : Option Persist.Tag :=
 def dataset? (s : String) : Option Persist.Dataset :=
   if s == "-" then some [] else (s.splitOn ",").mapM fun t =>
     match t.splitOn ":" with
-    | [k, g, p] => do pure ⟨← str? k, ← tag? g, ← p.toNat?⟩
+    | [k, g, p] => do pure ⟨(← str? k).toList, ← tag? g, ← p.toNat?⟩
     | _ => none
 
 def showFiles (fs : Persist.Folder) : String :=
-  if fs.isEmpty then "-" else ",".intercalate (fs.map fun f => s!"{encStr f.name}:{f.fmt.show}:{f.payload}")
+  if fs.isEmpty then "-" else ",".intercalate (fs.map fun f => s!"{encStr (String.ofList f.name)}:{f.fmt.show}:{f.payload}")
 
 def files? (s : String) : Option Persist.Folder :=
   if s == "-" then some [] else (s.splitOn ",").mapM fun t =>
     match t.splitOn ":" with
-    | [k, g, p] => do pure ⟨← str? k, ← tag? g, ← p.toNat?⟩
+    | [k, g, p] => do pure ⟨(← str? k).toList, ← tag? g, ← p.toNat?⟩
     | _ => none
 
 def showDataset (d : Persist.Dataset) : String :=
-  if d.isEmpty then "-" else ",".intercalate (d.map fun a => s!"{encStr a.key}:{a.tag.show}:{a.payload}")
+  if d.isEmpty then "-" else ",".intercalate (d.map fun a => s!"{encStr (String.ofList a.key)}:{a.tag.show}:{a.payload}")
 
 def showAPath (a : Persist.APath) : String := encStr (String.ofList a.render)
 
